@@ -79,6 +79,67 @@ def oracle(size, ps, thr=None, cfg_chunk=None):
     return None
 
 
+def oracle_adjust(mn, mx, mp, c, size):
+    """C14's adjuster clause for an adjuster built with limits (mn, mx, mp)."""
+    utils, copies, download, legacy = impl()
+    got = utils.ChunksizeAdjuster(max_size=mx, min_size=mn, max_parts=mp).adjust_chunksize(c, size)
+    if not (mn <= got <= mx):
+        return f'adjust_chunksize({c},{size}) with limits [{mn},{mx}]/{mp} returned {got}: outside the limits'
+    if size is not None and size <= mx * mp and -(-size // got) > mp:
+        return (f'adjust_chunksize({c},{size}) with limits [{mn},{mx}]/{mp} returned {got}: '
+                f'{-(-size // got)} parts, more than {mp}')
+    legal = mn <= c <= mx and (size is None or -(-size // c) <= mp)
+    if legal and got != c:
+        return f'adjust_chunksize({c},{size}) with limits [{mn},{mx}]/{mp} changed a legal chunk size to {got}'
+    return None
+
+
+def oracle_e2e(case, out, mn, mx, mp):
+    """C14 on what a real _submit run issued (out = the plan string recorded by end_to_end)."""
+    size, chunk, thr, kind = case['size'], case['chunk'], case['thr'], case['kind']
+    single = (out == '0')
+    if single != (size < thr):
+        return (f'{kind} of {size} bytes with threshold {thr}, chunk {chunk}: sent as '
+                f'{"one request" if single else "multipart/ranged"} (must be multipart exactly when size >= threshold)')
+    if single or out in ('', 'none'):
+        return None
+    items = out.split(',')
+    if kind == 'download' or kind == 'copy':
+        prev = -1
+        for k, it in enumerate(items):
+            rng = it.split('/')[-1] if kind == 'copy' else it
+            s_, e_ = rng.split(':')
+            s_ = unhx(s_)
+            e_ = size - 1 if e_ == '-' else min(unhx(e_), size - 1)
+            if s_ != prev + 1 or e_ < s_:
+                return f'{kind} of {size} bytes (chunk {chunk}, threshold {thr}): range {k} is {s_}-{e_}, previous ended at {prev}'
+            if kind == 'copy' and unhx(it.split('/')[0]) != k + 1:
+                return f'copy part numbers are not 1..n: {items}'
+            prev = e_
+        if prev != size - 1:
+            return f'{kind} of {size} bytes: ranges end at byte {prev}'
+        if kind == 'copy':
+            lens = [min(unhx(it.split('/')[-1].split(':')[1]) if it.split('/')[-1].split(':')[1] != '-' else size - 1, size - 1)
+                    - unhx(it.split('/')[-1].split(':')[0]) + 1 for it in items]
+            if len(items) > mp or any(not (mn <= l <= mx) for l in lens[:-1]):
+                return f'copy of {size} bytes (chunk {chunk}): part sizes {lens} outside [{mn},{mx}] or more than {mp} parts'
+    else:
+        off = 0
+        for k, it in enumerate(items):
+            pn, st, ln = (unhx(x) for x in it.split('/'))
+            if pn != k + 1 or st != off or ln <= 0:
+                return f'{kind} of {size} bytes (chunk {chunk}): part {k + 1} is number {pn} at {st} length {ln}, expected at {off}'
+            off += ln
+        if off != size:
+            return f'{kind} of {size} bytes: part bodies cover {off} bytes'
+        lens = [unhx(it.split('/')[2]) for it in items]
+        if any(not (mn <= l <= mx) for l in lens[:-1]) or lens[-1] > mx or \
+                (kind != 'upload-nonseekable' and len(items) > mp):
+            return (f'{kind} of {size} bytes (configured chunk {chunk}): part sizes {lens} violate the part-size limits '
+                    f'[{mn},{mx}] / at most {mp} parts')
+    return None
+
+
 # ---------------------------------------------------------------- cases
 
 def boundary_grid(ctx, n_random):
@@ -209,10 +270,22 @@ def run(ctx):
         fails += end_to_end(ctx)
 
     # every mismatch: is it a property violation on the implementation?
-    for (what, c, i, m) in fails[:50]:
+    found_input = False
+    fails.sort(key=lambda f: 0 if f[0].startswith('e2e') else 1)
+    for (what, c, i, m) in fails[:400]:
         size, ps = case_size_ps(what, c)
-        r = oracle(size, ps, cfg_chunk=ps) if size is not None or ps is not None else None
+        if what == 'adjust_chunksize(scaled)':
+            r = oracle_adjust(c[0], c[1], c[2], c[3], c[4])
+        elif what.startswith('e2e'):
+            r = oracle_e2e(c, i, 2, 9, 4)
+        else:
+            r = oracle(size, ps, cfg_chunk=ps) if size is not None or ps is not None else None
+        if r and found_input:
+            continue
+        if not r and found_input:
+            continue
         if r:
+            found_input = True
             ctx.report(f'oracle:{size}:{ps}', r, {'kind': 'input', 'component': what,
                                                  'case': {'size': size, 'part_size': ps, 'cfg_chunk': ps}})
         else:
@@ -309,7 +382,7 @@ def end_to_end(ctx):
                     m.download('b', 'k', io.BytesIO()).result()
                 gets = [r['kwargs'].get('Range') for r in c.calls('GetObject')]
                 if size >= thr:
-                    got = ','.join(parse_range_header(r) for r in gets)
+                    got = '0' if gets == [None] else ','.join(parse_range_header(r) for r in gets if r is not None)
                     lines.append(f'dl {hx(size)} {hx(chunk)}')
                 else:
                     got = 'single' if gets == [None] else f'ranged:{gets}'
